@@ -1,3 +1,12 @@
+gen/Compute.vo gen/Compute.glob gen/Compute.v.beautified gen/Compute.required_vo: gen/Compute.v lib/Lib.vo
+gen/Compute.vio: gen/Compute.v lib/Lib.vio
+gen/Compute.vos gen/Compute.vok gen/Compute.required_vos: gen/Compute.v lib/Lib.vos
+gen/Tables.vo gen/Tables.glob gen/Tables.v.beautified gen/Tables.required_vo: gen/Tables.v lib/Lib.vo gen/Compute.vo
+gen/Tables.vio: gen/Tables.v lib/Lib.vio gen/Compute.vio
+gen/Tables.vos gen/Tables.vok gen/Tables.required_vos: gen/Tables.v lib/Lib.vos gen/Compute.vos
+gen/Unfold.vo gen/Unfold.glob gen/Unfold.v.beautified gen/Unfold.required_vo: gen/Unfold.v lib/Lib.vo gen/Compute.vo gen/Tables.vo
+gen/Unfold.vio: gen/Unfold.v lib/Lib.vio gen/Compute.vio gen/Tables.vio
+gen/Unfold.vos gen/Unfold.vok gen/Unfold.required_vos: gen/Unfold.v lib/Lib.vos gen/Compute.vos gen/Tables.vos
 lib/BoolLaws.vo lib/BoolLaws.glob lib/BoolLaws.v.beautified lib/BoolLaws.required_vo: lib/BoolLaws.v lib/Lib.vo lib/RLib.vo
 lib/BoolLaws.vio: lib/BoolLaws.v lib/Lib.vio lib/RLib.vio
 lib/BoolLaws.vos lib/BoolLaws.vok lib/BoolLaws.required_vos: lib/BoolLaws.v lib/Lib.vos lib/RLib.vos
@@ -16,15 +25,9 @@ lib/Spec.vos lib/Spec.vok lib/Spec.required_vos: lib/Spec.v lib/Lib.vos lib/RLib
 lib/Trig.vo lib/Trig.glob lib/Trig.v.beautified lib/Trig.required_vo: lib/Trig.v lib/Lib.vo lib/RLib.vo
 lib/Trig.vio: lib/Trig.v lib/Lib.vio lib/RLib.vio
 lib/Trig.vos lib/Trig.vok lib/Trig.required_vos: lib/Trig.v lib/Lib.vos lib/RLib.vos
-gen/Compute.vo gen/Compute.glob gen/Compute.v.beautified gen/Compute.required_vo: gen/Compute.v lib/Lib.vo
-gen/Compute.vio: gen/Compute.v lib/Lib.vio
-gen/Compute.vos gen/Compute.vok gen/Compute.required_vos: gen/Compute.v lib/Lib.vos
-gen/Tables.vo gen/Tables.glob gen/Tables.v.beautified gen/Tables.required_vo: gen/Tables.v lib/Lib.vo gen/Compute.vo
-gen/Tables.vio: gen/Tables.v lib/Lib.vio gen/Compute.vio
-gen/Tables.vos gen/Tables.vok gen/Tables.required_vos: gen/Tables.v lib/Lib.vos gen/Compute.vos
-gen/Unfold.vo gen/Unfold.glob gen/Unfold.v.beautified gen/Unfold.required_vo: gen/Unfold.v lib/Lib.vo gen/Compute.vo gen/Tables.vo
-gen/Unfold.vio: gen/Unfold.v lib/Lib.vio gen/Compute.vio gen/Tables.vio
-gen/Unfold.vos gen/Unfold.vok gen/Unfold.required_vos: gen/Unfold.v lib/Lib.vos gen/Compute.vos gen/Tables.vos
+proofs/C11_laws.vo proofs/C11_laws.glob proofs/C11_laws.v.beautified proofs/C11_laws.required_vo: proofs/C11_laws.v lib/Lib.vo lib/RLib.vo lib/Trig.vo lib/Conv.vo lib/Spec.vo gen/Compute.vo gen/Tables.vo gen/Unfold.vo proofs/Spec_planar.vo proofs/Spec_spatial1.vo proofs/Spec_spatial2.vo proofs/Spec_lorentz.vo
+proofs/C11_laws.vio: proofs/C11_laws.v lib/Lib.vio lib/RLib.vio lib/Trig.vio lib/Conv.vio lib/Spec.vio gen/Compute.vio gen/Tables.vio gen/Unfold.vio proofs/Spec_planar.vio proofs/Spec_spatial1.vio proofs/Spec_spatial2.vio proofs/Spec_lorentz.vio
+proofs/C11_laws.vos proofs/C11_laws.vok proofs/C11_laws.required_vos: proofs/C11_laws.v lib/Lib.vos lib/RLib.vos lib/Trig.vos lib/Conv.vos lib/Spec.vos gen/Compute.vos gen/Tables.vos gen/Unfold.vos proofs/Spec_planar.vos proofs/Spec_spatial1.vos proofs/Spec_spatial2.vos proofs/Spec_lorentz.vos
 proofs/C12_close.vo proofs/C12_close.glob proofs/C12_close.v.beautified proofs/C12_close.required_vo: proofs/C12_close.v lib/Lib.vo lib/RLib.vo lib/BoolLaws.vo gen/Compute.vo gen/Tables.vo gen/Unfold.vo
 proofs/C12_close.vio: proofs/C12_close.v lib/Lib.vio lib/RLib.vio lib/BoolLaws.vio gen/Compute.vio gen/Tables.vio gen/Unfold.vio
 proofs/C12_close.vos proofs/C12_close.vok proofs/C12_close.required_vos: proofs/C12_close.v lib/Lib.vos lib/RLib.vos lib/BoolLaws.vos gen/Compute.vos gen/Tables.vos gen/Unfold.vos
@@ -46,12 +49,24 @@ proofs/C13_range.vos proofs/C13_range.vok proofs/C13_range.required_vos: proofs/
 proofs/C13_sign.vo proofs/C13_sign.glob proofs/C13_sign.v.beautified proofs/C13_sign.required_vo: proofs/C13_sign.v lib/Lib.vo lib/RLib.vo lib/Trig.vo gen/Compute.vo gen/Tables.vo gen/Unfold.vo proofs/C13_range.vo
 proofs/C13_sign.vio: proofs/C13_sign.v lib/Lib.vio lib/RLib.vio lib/Trig.vio gen/Compute.vio gen/Tables.vio gen/Unfold.vio proofs/C13_range.vio
 proofs/C13_sign.vos proofs/C13_sign.vok proofs/C13_sign.required_vos: proofs/C13_sign.v lib/Lib.vos lib/RLib.vos lib/Trig.vos gen/Compute.vos gen/Tables.vos gen/Unfold.vos proofs/C13_range.vos
+proofs/Spec_lorentz.vo proofs/Spec_lorentz.glob proofs/Spec_lorentz.v.beautified proofs/Spec_lorentz.required_vo: proofs/Spec_lorentz.v lib/Lib.vo lib/RLib.vo lib/Trig.vo lib/Conv.vo lib/Spec.vo gen/Compute.vo gen/Tables.vo gen/Unfold.vo proofs/Spec_planar.vo proofs/Spec_spatial1.vo proofs/Spec_spatial2.vo
+proofs/Spec_lorentz.vio: proofs/Spec_lorentz.v lib/Lib.vio lib/RLib.vio lib/Trig.vio lib/Conv.vio lib/Spec.vio gen/Compute.vio gen/Tables.vio gen/Unfold.vio proofs/Spec_planar.vio proofs/Spec_spatial1.vio proofs/Spec_spatial2.vio
+proofs/Spec_lorentz.vos proofs/Spec_lorentz.vok proofs/Spec_lorentz.required_vos: proofs/Spec_lorentz.v lib/Lib.vos lib/RLib.vos lib/Trig.vos lib/Conv.vos lib/Spec.vos gen/Compute.vos gen/Tables.vos gen/Unfold.vos proofs/Spec_planar.vos proofs/Spec_spatial1.vos proofs/Spec_spatial2.vos
 proofs/Spec_planar.vo proofs/Spec_planar.glob proofs/Spec_planar.v.beautified proofs/Spec_planar.required_vo: proofs/Spec_planar.v lib/Lib.vo lib/RLib.vo lib/Trig.vo lib/Spec.vo gen/Compute.vo gen/Tables.vo gen/Unfold.vo
 proofs/Spec_planar.vio: proofs/Spec_planar.v lib/Lib.vio lib/RLib.vio lib/Trig.vio lib/Spec.vio gen/Compute.vio gen/Tables.vio gen/Unfold.vio
 proofs/Spec_planar.vos proofs/Spec_planar.vok proofs/Spec_planar.required_vos: proofs/Spec_planar.v lib/Lib.vos lib/RLib.vos lib/Trig.vos lib/Spec.vos gen/Compute.vos gen/Tables.vos gen/Unfold.vos
 proofs/Spec_spatial1.vo proofs/Spec_spatial1.glob proofs/Spec_spatial1.v.beautified proofs/Spec_spatial1.required_vo: proofs/Spec_spatial1.v lib/Lib.vo lib/RLib.vo lib/Trig.vo lib/Conv.vo lib/Spec.vo gen/Compute.vo gen/Tables.vo gen/Unfold.vo proofs/Spec_planar.vo
 proofs/Spec_spatial1.vio: proofs/Spec_spatial1.v lib/Lib.vio lib/RLib.vio lib/Trig.vio lib/Conv.vio lib/Spec.vio gen/Compute.vio gen/Tables.vio gen/Unfold.vio proofs/Spec_planar.vio
 proofs/Spec_spatial1.vos proofs/Spec_spatial1.vok proofs/Spec_spatial1.required_vos: proofs/Spec_spatial1.v lib/Lib.vos lib/RLib.vos lib/Trig.vos lib/Conv.vos lib/Spec.vos gen/Compute.vos gen/Tables.vos gen/Unfold.vos proofs/Spec_planar.vos
+proofs/Spec_spatial2.vo proofs/Spec_spatial2.glob proofs/Spec_spatial2.v.beautified proofs/Spec_spatial2.required_vo: proofs/Spec_spatial2.v lib/Lib.vo lib/RLib.vo lib/Trig.vo lib/Conv.vo lib/Spec.vo gen/Compute.vo gen/Tables.vo gen/Unfold.vo proofs/Spec_planar.vo proofs/Spec_spatial1.vo
+proofs/Spec_spatial2.vio: proofs/Spec_spatial2.v lib/Lib.vio lib/RLib.vio lib/Trig.vio lib/Conv.vio lib/Spec.vio gen/Compute.vio gen/Tables.vio gen/Unfold.vio proofs/Spec_planar.vio proofs/Spec_spatial1.vio
+proofs/Spec_spatial2.vos proofs/Spec_spatial2.vok proofs/Spec_spatial2.required_vos: proofs/Spec_spatial2.v lib/Lib.vos lib/RLib.vos lib/Trig.vos lib/Conv.vos lib/Spec.vos gen/Compute.vos gen/Tables.vos gen/Unfold.vos proofs/Spec_planar.vos proofs/Spec_spatial1.vos
+props/C01.vo props/C01.glob props/C01.v.beautified props/C01.required_vo: props/C01.v lib/Lib.vo lib/RLib.vo lib/Spec.vo gen/Compute.vo gen/Tables.vo proofs/Spec_planar.vo proofs/Spec_spatial1.vo proofs/Spec_spatial2.vo proofs/Spec_lorentz.vo
+props/C01.vio: props/C01.v lib/Lib.vio lib/RLib.vio lib/Spec.vio gen/Compute.vio gen/Tables.vio proofs/Spec_planar.vio proofs/Spec_spatial1.vio proofs/Spec_spatial2.vio proofs/Spec_lorentz.vio
+props/C01.vos props/C01.vok props/C01.required_vos: props/C01.v lib/Lib.vos lib/RLib.vos lib/Spec.vos gen/Compute.vos gen/Tables.vos proofs/Spec_planar.vos proofs/Spec_spatial1.vos proofs/Spec_spatial2.vos proofs/Spec_lorentz.vos
+props/C11.vo props/C11.glob props/C11.v.beautified props/C11.required_vo: props/C11.v lib/Lib.vo lib/RLib.vo lib/Spec.vo gen/Compute.vo gen/Tables.vo proofs/Spec_planar.vo proofs/Spec_spatial1.vo proofs/Spec_spatial2.vo proofs/Spec_lorentz.vo proofs/C11_laws.vo
+props/C11.vio: props/C11.v lib/Lib.vio lib/RLib.vio lib/Spec.vio gen/Compute.vio gen/Tables.vio proofs/Spec_planar.vio proofs/Spec_spatial1.vio proofs/Spec_spatial2.vio proofs/Spec_lorentz.vio proofs/C11_laws.vio
+props/C11.vos props/C11.vok props/C11.required_vos: props/C11.v lib/Lib.vos lib/RLib.vos lib/Spec.vos gen/Compute.vos gen/Tables.vos proofs/Spec_planar.vos proofs/Spec_spatial1.vos proofs/Spec_spatial2.vos proofs/Spec_lorentz.vos proofs/C11_laws.vos
 props/C12.vo props/C12.glob props/C12.v.beautified props/C12.required_vo: props/C12.v lib/Lib.vo lib/RLib.vo lib/BoolLaws.vo gen/Compute.vo gen/Tables.vo proofs/C12_eq.vo proofs/C12_ne.vo proofs/C12_close.vo
 props/C12.vio: props/C12.v lib/Lib.vio lib/RLib.vio lib/BoolLaws.vio gen/Compute.vio gen/Tables.vio proofs/C12_eq.vio proofs/C12_ne.vio proofs/C12_close.vio
 props/C12.vos props/C12.vok props/C12.required_vos: props/C12.v lib/Lib.vos lib/RLib.vos lib/BoolLaws.vos gen/Compute.vos gen/Tables.vos proofs/C12_eq.vos proofs/C12_ne.vos proofs/C12_close.vos
